@@ -3,7 +3,7 @@
 Monitors: structural digest of the whole object graph (vars() walk of Indicator/Hexital/managers/
 candles) before and after every read-only call; the object then keeps being used and must end equal to
 a twin that never called an accessor; input guards (deep copies + identity lists) on caller-owned
-dicts and lists around every append; encoding twins (Candle / dict / list / lists of those) compared
+dicts and lists around every append; delivery conservation on every list a Hexital holds after every append; encoding twins (Candle / dict / list / lists of those) compared
 on every manager of a multi-timeframe Hexital.
 """
 from __future__ import annotations
@@ -39,7 +39,7 @@ def plan(tier):
 
 
 def floors(tier):
-    return {"distinct_nontrivial": 200, "readonly_calls_digested": 10000, "accessor_kinds": 18, "input_guards_checked": 3000, "encoding_twin_comparisons": 1500}
+    return {"distinct_nontrivial": 200, "readonly_calls_digested": 10000, "accessor_kinds": 18, "input_guards_checked": 3000, "encoding_twin_comparisons": 1500, "delivery_checks": 3000}
 
 
 def gen_case(rng, tier, idx):
@@ -49,7 +49,7 @@ def gen_case(rng, tier, idx):
     else:
         tf, tf_s, step = None, None, 60
     n = rng.randint(30, 90)
-    rows = streams.make_rows(rng, n, rng.choice(["walk", "flat_runs", "zero_vol"]), step, rng.choice(["regular", "jitter"]), tf_s)
+    rows = streams.make_rows(rng, n, rng.choice(["walk", "flat_runs", "zero_vol", "frac_vol"]), step, rng.choice(["regular", "jitter"]), tf_s)
     if rng.random() < 0.2:
         from datetime import datetime, timedelta
         prev = None
@@ -65,6 +65,8 @@ def gen_case(rng, tier, idx):
             if rng.random() < 0.6:
                 s = (tf_s or step) * rng.choice([2, 3, 5])
                 c["kw"]["timeframe"] = f"S{s}" if s % 60 else (f"T{s // 60}" if s % 3600 else f"H{s // 3600}")
+            elif tf and rng.random() < 0.4:
+                c["kw"]["timeframe"] = tf  # a member naming the Hexital's own timeframe explicitly
     prog = []
     left = n - 3
     while left > 0:
@@ -167,6 +169,17 @@ def run_case(case):
                 if guard is not None and guard != arg:
                     viol.append({"monitor": "input-guard", "sig": f"C19|caller-data-altered|{case['enc']}",
                                  "detail": f"append altered the caller's value: before {short(guard, 250)} after {short(arg, 250)}"})
+                if case["hexital"]:
+                    # "delivers the same candle to every timeframe of a Hexital": every list the Hexital holds has received everything fed so far
+                    fed = sum(r[5] for r in rows[:pos])
+                    last_ts = ts_of(rows[pos - 1][0]).replace(microsecond=0)
+                    for ln, lst in dict(obj.get_candles()).items():
+                        stats["delivery_checks"] = stats.get("delivery_checks", 0) + 1
+                        tot = sum(c.volume for c in lst)
+                        if abs(tot - fed) > 1e-9 * max(1.0, fed) or not lst or lst[-1].timestamp < last_ts:
+                            viol.append({"monitor": "delivery", "sig": f"C19|candle-not-delivered|{'member-tf' if ln != 'default' else 'main'}",
+                                         "detail": f"after append #{appends} list {ln!r} holds volume {tot} of {fed} fed, newest candle {lst[-1].timestamp if lst else None} vs newest fed {last_ts}"})
+                            break
                 if ids is not None and ids != [id(x) for x in arg]:
                     viol.append({"monitor": "input-guard", "sig": f"C19|caller-list-altered|{case['enc']}", "detail": "element identities of the caller's list changed"})
             else:
